@@ -51,9 +51,25 @@ fn h_sip13(x: &BigDecimal) -> u64 {
     h.finish()
 }
 
+/// `minus_zero`: a zero reached the way a user gets a "negative zero" (num-bigint has no signed zero, so every one of
+/// these must be indistinguishable from a plain zero): negating a zero, cancelling x - x, parsing "-0.00"
 fn build(d: &D, minus_zero: bool) -> BigDecimal {
     if d.is_zero() && minus_zero {
-        BigDecimal::new(BigInt::from_biguint(Sign::Minus, BigUint::from(0u8)), d.scale)
+        match d.scale.rem_euclid(4) {
+            0 => BigDecimal::new(BigInt::from_biguint(Sign::Minus, BigUint::from(0u8)), d.scale),
+            1 => -BigDecimal::new(BigInt::from(0), d.scale),
+            2 => {
+                let x = BigDecimal::new(BigInt::from(-7), d.scale);
+                &x - &x
+            }
+            _ => {
+                if (0..=2000).contains(&d.scale) {
+                    format!("-0.{}", "0".repeat(d.scale as usize)).parse().unwrap()
+                } else {
+                    BigDecimal::new(BigInt::from(-1), d.scale) * BigDecimal::new(BigInt::from(0), 0)
+                }
+            }
+        }
     } else {
         d.bd()
     }
@@ -199,7 +215,7 @@ pub fn run(ctx: &Ctx) {
         "twin",
         9 * 9 * 13 * 2 * 2000,
         true,
-        "EXHAUSTIVE over canonical |n| < 2000 (n without trailing zero, plus zero built with either sign) x scale -6..6 x 0..8 extra zeros on each side",
+        "EXHAUSTIVE over canonical |n| < 2000 (n without trailing zero, plus zero, also reached by negation / cancellation / parsing \"-0.0\" / multiplying a negative by zero) x scale -6..6 x 0..8 extra zeros on each side",
         grid,
         check_twin,
     );
@@ -222,6 +238,6 @@ pub fn run(ctx: &Ctx) {
     let n = t.pick(200_000u64, 5_000_000);
     ctx.generated("twins", "twin", n, "canonical value x scale in +-60 / +-2000 / +-99000 x 0..60 (..900) extra zeros each", move || twin_strategy(max_len), check_twin);
     ctx.generated("limb-structured", "twin", n / 2, "integers built from zero / all-ones / random 64-bit limbs and forced to end in 0..4 decimal zeros, all-ones limbs, near powers of two, boundary words; against re-representations", structured_strategy, check_twin);
-    ctx.generated("zeros", "twin", n / 4, "zero with two scales anywhere in [-10^5, 10^5], both construction signs", zero_strategy, check_twin);
+    ctx.generated("zeros", "twin", n / 4, "zero with two scales anywhere in [-10^5, 10^5], also zeros reached by negation, x - x, \"-0.00\" and -1 * 0", zero_strategy, check_twin);
     ctx.generated("negscale-vs-written", "twin", n / 16, "n e+k (negative scale) versus n followed by k (+extra) written zeros, k up to 90000", move || negscale_strategy(max_len.min(300)), check_twin);
 }
